@@ -422,6 +422,19 @@ func (c *checker) oneConn(i int, be *rig.Backend, px *rig.Proxy, custom bool) {
 		var mu sync.Mutex
 		chop = func(rem int) int { mu.Lock(); defer mu.Unlock(); return 1 + cr.Intn(7) }
 	}
+	// every fifth connection: the ClientHello and the compatibility change_cipher_spec record a TLS 1.3
+	// client may send (RFC 8446 D.4; the server ignores it) leave in ONE segment, or after a first
+	// fragment shorter than a record header (clients that do not offer TLS 1.3 fail this handshake)
+	var tweak []func(*rig.RecConn)
+	withCCS := i%5 == 2
+	if withCCS {
+		chop = nil
+		split := []int{0, 0, 1, 3, 4}[r.Intn(5)]
+		tweak = append(tweak, func(rc *rig.RecConn) {
+			rc.AfterFirstWrite = []byte{0x14, 0x03, 0x03, 0x00, 0x01, 0x01}
+			rc.FirstSplit = split
+		})
+	}
 	var conn net.Conn
 	var rc *rig.RecConn
 	var proto string
@@ -429,10 +442,10 @@ func (c *checker) oneConn(i int, be *rig.Backend, px *rig.Proxy, custom bool) {
 	local := &net.TCPAddr{IP: net.IPv4(127, 0, 0, byte(1+r.Intn(8)))}
 	if r.Intn(6) == 0 { // crypto/tls as a client as well
 		cfg := &tls.Config{InsecureSkipVerify: true, ServerName: sni, NextProtos: alpn}
-		if r.Intn(2) == 0 {
+		if r.Intn(2) == 0 && !withCCS {
 			cfg.MaxVersion = tls.VersionTLS12
 		}
-		tc, rcc, err := rig.StdDial(px.Addr, cfg, chop, local)
+		tc, rcc, err := rig.StdDial(px.Addr, cfg, chop, local, tweak...)
 		if err != nil {
 			run.Add("e2e_handshake_failed", 1)
 			return
@@ -453,9 +466,13 @@ func (c *checker) oneConn(i int, be *rig.Backend, px *rig.Proxy, custom bool) {
 				return
 			}
 			desc = d
-			u, rcc, e2 := rig.UTLSDial(px.Addr, s, sni, chop, local)
+			u, rcc, e2 := rig.UTLSDial(px.Addr, s, sni, chop, local, tweak...)
 			if e2 != nil {
-				run.Add("e2e_handshake_failed", 1)
+				if withCCS {
+					run.Add("e2e_handshake_with_early_ccs_failed", 1)
+				} else {
+					run.Add("e2e_handshake_failed", 1)
+				}
 				return
 			}
 			uc, rc, err = u, rcc, nil
@@ -463,9 +480,13 @@ func (c *checker) oneConn(i int, be *rig.Backend, px *rig.Proxy, custom bool) {
 		} else {
 			s, d := hello.CustomSpec(r, alpn)
 			desc = d
-			u, rcc, e2 := rig.UTLSDial(px.Addr, s, sni, chop, local)
+			u, rcc, e2 := rig.UTLSDial(px.Addr, s, sni, chop, local, tweak...)
 			if e2 != nil {
-				run.Add("e2e_handshake_failed", 1)
+				if withCCS {
+					run.Add("e2e_handshake_with_early_ccs_failed", 1)
+				} else {
+					run.Add("e2e_handshake_failed", 1)
+				}
 				return
 			}
 			uc, rc, err = u, rcc, nil
@@ -498,6 +519,9 @@ func (c *checker) oneConn(i int, be *rig.Backend, px *rig.Proxy, custom bool) {
 	run.Add("e2e_connections_"+map[string]string{"h2": "h2", "http/1.1": "h1", "": "h1_noalpn"}[proto], 1)
 	if chop != nil {
 		run.Add("e2e_connections_chopped_delivery", 1)
+	}
+	if withCCS {
+		run.Add("e2e_connections_hello_and_ccs_in_one_segment", 1)
 	}
 	nreq := 2 + r.Intn(4)
 	tags := make([]string, nreq)
